@@ -3,4 +3,5 @@ CONSTANTS TS <- TS21 W = 3 H = 2 FillMode = TRUE
 INVARIANT Correct
 INVARIANT WrittenOnce
 INVARIANT InBuffer
+INVARIANT StepsAgree
 CHECK_DEADLOCK FALSE
